@@ -96,14 +96,15 @@ Definition x86_init_call_conv (e : env) (id : Z) : callconv + Z :=
         mkCC a id' 0 0 0 nalign flags ogp ovec omask omm pres srs sra in
     (* (id after the switch, flags, gp order, vec order, standard?) *)
     let std id' flags ogp :=
-        (* standard conventions: MM 0..2, VEC 0..2 (overrides what the switch set), kPassVecByStackIfVA; cdecl is var-arg compatible *)
+        (* standard conventions: MM 0..2, VEC 0..2 (vectorcall keeps its six registers: fixes/C06-vectorcall32-regs.patch),
+           kPassVecByStackIfVA; cdecl is var-arg compatible *)
         let flags := Z.lor flags F_VecStackIfVA in
         let flags := if id' =? 0 then Z.lor flags F_VarArgCompat else flags in
-        inl (mk id' flags ogp [0;1;2] [] [0;1;2] pres 4) in
+        inl (mk id' flags ogp (if id' =? 3 then range 0 6 else [0;1;2]) [] [0;1;2] pres 4) in
     if id =? 0 then std 0 0 []
     else if id =? 1 then std 1 F_CalleePops []
     else if id =? 2 then std 2 F_CalleePops [1;2]
-    else if id =? 3 then std 3 F_CalleePops [1;2]
+    else if id =? 3 then std 3 (Z.lor F_CalleePops F_FloatsByVec) [1;2]
     else if id =? 4 then (if e_win e then std 4 F_CalleePops [1] else std 0 0 [])
     else if id =? 5 then std 5 0 [0]
     else if id =? 6 then std 6 0 [0;2]
@@ -251,8 +252,10 @@ Definition win64_value (c : callconv) (i t : Z) : fval :=
     else fv_stack t off
   else if ty_is_float t || ty_is_vec t then
     let r := order_at (cc_ovec c) i in
-    if negb (r =? 255) && (ty_is_float t || vcall) then fv_reg t (x86_vec_regtype t) r
-    else if ty_is_float t then fv_stack t off
+    (* float / double by value; an 80-bit float does not fit a home slot and is passed by reference (fixes/C06-win64-f80-by-ref.patch) *)
+    let fbv := ty_is_float t && (size <=? 8) in
+    if negb (r =? 255) && (fbv || (vcall && negb (ty_is_float t))) then fv_reg t (x86_vec_regtype t) r
+    else if fbv then fv_stack t off
     else
       let g := order_at (cc_ogp c) i in     (* bounded by kMaxRegArgsPerGroup like the other look-ups *)
       if negb (g =? 255) then fv_reg_ind t RT_Gp64 g else fv_stack_ind t off
